@@ -12,7 +12,7 @@ open Spec Sim Sim6
 theorem program_div7_syntactic (ast : Block) (r : RBlock) (bc : Bytecode) (hc : compileProgram ast = .ok (r, bc)) (hin : S7Top ast)
     (hdiv : ∀ F, Spec.evalB F r {} = .fuel) (n : Nat) :
     (∃ s', runSteps bc.code n (VM.start {} bc) = .budget s') ∨
-    (∃ n0 s', ∀ k, runSteps bc.code (n0 + k) (VM.start {} bc) = .error .index s') := by
+    HitsLimit bc := by
   unfold compileProgram at hc
   cases hr : resolveProgram ast with
   | error e => simp [hr] at hc
@@ -30,27 +30,24 @@ theorem program_div7_syntactic (ast : Block) (r : RBlock) (bc : Bytecode) (hc : 
 theorem evalText_of_noEnd {cc : CharClass} {src : Text} {ast : Block} {r : RBlock} {bc : Bytecode} (hp : parse cc src = .ok ast)
     (hc : compileProgram ast = .ok (r, bc)) {b : Nat}
     (h : (∃ s', runSteps bc.code b (VM.start {} bc) = .budget s') ∨
-      (∃ n0 s', ∀ k, runSteps bc.code (n0 + k) (VM.start {} bc) = .error .index s')) :
-    evalText cc b src = .budget ∨ (∃ n out, ∀ k, evalText cc (n + k) src = .error .index out) := by
-  rcases h with ⟨s', hb⟩ | ⟨n, s', hn⟩
+      HitsLimit bc) :
+    evalText cc b src = .budget ∨ TextHitsLimit cc src := by
+  rcases h with ⟨s', hb⟩ | hlim
   · left
     simp only [evalText, hp, hc, VM.run, hb]
-  · right
-    refine ⟨n, s'.out, fun k => ?_⟩
-    simp only [evalText, hp, hc, VM.run, hn k]
-    rfl
+  · exact .inr (TextHitsLimit.of hp hc hlim)
 
 /-- (T3, stage 7) DIVERGENCE PRESERVATION ON TEXTS, nested function literals — the hypotheses of
     `C01_nested_functions_eval_text` -/
 theorem eval_text7_div (cc : CharClass) (src : Text) (ast : Block) (r : RBlock) (bc : Bytecode) (hp : parse cc src = .ok ast)
     (hc : compileProgram ast = .ok (r, bc)) (hin : inFragment7 r = true) (hdiv : ∀ F, specText cc F src = .budget) (b : Nat) :
-    evalText cc b src = .budget ∨ (∃ n out, ∀ k, evalText cc (n + k) src = .error .index out) :=
+    evalText cc b src = .budget ∨ TextHitsLimit cc src :=
   evalText_of_noEnd hp hc (program_div7 ast r bc hc hin (fun F => specText_budget hp (resolve_of_compile hc) (hdiv F)) b)
 
 /-- (T3, stage 7, no validation) — the hypotheses of `C01_nested_functions_eval_text_no_validation` -/
 theorem eval_text7_div_checked (cc : CharClass) (src : Text) (ast : Block) (r : RBlock) (bc : Bytecode) (hp : parse cc src = .ok ast)
     (hs : src7Top ast = true) (hc : compileProgram ast = .ok (r, bc)) (hdiv : ∀ F, specText cc F src = .budget) (b : Nat) :
-    evalText cc b src = .budget ∨ (∃ n out, ∀ k, evalText cc (n + k) src = .error .index out) :=
+    evalText cc b src = .budget ∨ TextHitsLimit cc src :=
   evalText_of_noEnd hp hc (program_div7_syntactic ast r bc hc (src7Top_sound ast hs)
     (fun F => specText_budget hp (resolve_of_compile hc) (hdiv F)) b)
 
@@ -58,14 +55,14 @@ theorem eval_text7_div_checked (cc : CharClass) (src : Text) (ast : Block) (r : 
 
 /-- the converse, from any pair (forward theorem, divergence preservation) about a text -/
 theorem converse_of (cc : CharClass) (src : Text)
-    (hfwd : ∀ F, (∃ n out, ∀ k, evalText cc (n + k) src = .error .index out) ∨
+    (hfwd : ∀ F, TextHitsLimit cc src ∨
       match specText cc F src with
       | .value t out => ∃ n, ∀ k, evalText cc (n + k) src = .value t out
       | .error e out => ∃ n, ∀ k, evalText cc (n + k) src = .error e out
       | .fault _ => False
       | _ => True)
-    (hdivp : (∀ F, specText cc F src = .budget) → ∀ b, evalText cc b src = .budget ∨ (∃ n out, ∀ k, evalText cc (n + k) src = .error .index out))
-    (b : Nat) (hne : evalText cc b src ≠ .budget) (hnl : ¬ ∃ n out, ∀ k, evalText cc (n + k) src = .error .index out) :
+    (hdivp : (∀ F, specText cc F src = .budget) → ∀ b, evalText cc b src = .budget ∨ TextHitsLimit cc src)
+    (b : Nat) (hne : evalText cc b src ≠ .budget) (hnl : ¬ TextHitsLimit cc src) :
     ∃ F, specText cc F src = evalText cc b src ∨ specText cc F src = .unspec := by
   by_cases hall : ∀ F, specText cc F src = .budget
   · rcases hdivp hall b with h | h
@@ -100,33 +97,35 @@ theorem converse_of (cc : CharClass) (src : Text)
     stack/frame limit, is what the text denotes (or the semantics leaves the behaviour unspecified) -/
 theorem eval_text7_converse (cc : CharClass) (src : Text) (ast : Block) (r : RBlock) (bc : Bytecode) (hp : parse cc src = .ok ast)
     (hc : compileProgram ast = .ok (r, bc)) (hin : inFragment7 r = true) (b : Nat)
-    (hne : evalText cc b src ≠ .budget) (hnl : ¬ ∃ n out, ∀ k, evalText cc (n + k) src = .error .index out) :
+    (hne : evalText cc b src ≠ .budget) (hnl : ¬ TextHitsLimit cc src) :
     ∃ F, specText cc F src = evalText cc b src ∨ specText cc F src = .unspec :=
   converse_of cc src (eval_text7 cc src ast r bc hp hc hin) (eval_text7_div cc src ast r bc hp hc hin) b hne hnl
 
 /-- (T4, stage 7, no validation) -/
 theorem eval_text7_converse_checked (cc : CharClass) (src : Text) (ast : Block) (r : RBlock) (bc : Bytecode) (hp : parse cc src = .ok ast)
     (hs : src7Top ast = true) (hc : compileProgram ast = .ok (r, bc)) (b : Nat)
-    (hne : evalText cc b src ≠ .budget) (hnl : ¬ ∃ n out, ∀ k, evalText cc (n + k) src = .error .index out) :
+    (hne : evalText cc b src ≠ .budget) (hnl : ¬ TextHitsLimit cc src) :
     ∃ F, specText cc F src = evalText cc b src ∨ specText cc F src = .unspec :=
   converse_of cc src (eval_text7_checked cc src ast r bc hp hs hc) (eval_text7_div_checked cc src ast r bc hp hs hc) b hne hnl
 
 /-- a value, or an error of another kind than the limit's, is never the limit -/
 theorem not_limit_of_value {cc : CharClass} {src : Text} {b : Nat} {t : Tree} {out : List Text} (hv : evalText cc b src = .value t out) :
-    evalText cc b src ≠ .budget ∧ ¬ ∃ n out, ∀ k, evalText cc (n + k) src = .error .index out := by
+    evalText cc b src ≠ .budget ∧ ¬ TextHitsLimit cc src := by
   have hne : evalText cc b src ≠ .budget := by rw [hv]; intro h; cases h
   refine ⟨hne, ?_⟩
-  rintro ⟨n, out', hn⟩
+  intro hl
+  obtain ⟨n, out', hn⟩ := hl.observable
   have h1 := evalText_mono cc src b n hne
   have h2 := hn b
   rw [Nat.add_comm] at h2
   rw [h1, hv] at h2; cases h2
 
 theorem not_limit_of_error {cc : CharClass} {src : Text} {b : Nat} {e : Err} {out : List Text} (hv : evalText cc b src = .error e out)
-    (he : e ≠ .index) : evalText cc b src ≠ .budget ∧ ¬ ∃ n out, ∀ k, evalText cc (n + k) src = .error .index out := by
+    (he : e ≠ .index) : evalText cc b src ≠ .budget ∧ ¬ TextHitsLimit cc src := by
   have hne : evalText cc b src ≠ .budget := by rw [hv]; intro h; cases h
   refine ⟨hne, ?_⟩
-  rintro ⟨n, out', hn⟩
+  intro hl
+  obtain ⟨n, out', hn⟩ := hl.observable
   have h1 := evalText_mono cc src b n hne
   have h2 := hn b
   rw [Nat.add_comm] at h2
